@@ -24,7 +24,7 @@ import ast
 
 from ..astutil import attr_chain, callee_name, calls, is_name, is_self_attr, text
 from ..core import Result
-from ..flow import MustFlow
+from ..flow import MustFlow, node_calls
 from ..model import AnchorMissing, Repo, walk_no_nested
 
 PID = "C07"
@@ -94,7 +94,7 @@ def run(repo: Repo) -> Result:
     def visit(node, st):
         if isinstance(node, ast.Compare) and attr_chain(node.left) == ["self", "size"] and "counted" not in st:
             res.add("C07-COUNT", w.qual, "check-before-count", "the size > limit test runs before the bytes of this write were added", w.file, node.lineno)
-        for c in calls(node) if not isinstance(node, ast.expr) else []:
+        for c in node_calls(node):
             if callee_name(c) == "write" and isinstance(c.func.value, ast.Call) and callee_name(c.func.value) == "super":
                 facts_at_write.append((c, st))
 
